@@ -1,5 +1,191 @@
 import GV.Model.Minify
 import GV.Model.Names
 import GV.Spec.JsTokens
+import GV.Proofs.MinifyLemmas
+import GV.Proofs.TokenLemmas
+import GV.Proofs.NamesLemmas
+
+/-!
+  GV.Props.C16 — minification preserves behaviour: the two mechanisms.
+
+  (1) `removeWhitespace` (model `GV.Minify`, compiler/utils.go:887-936) against the lexical specification
+      `GV.JsTokens`: on every well-formed input it is exactly the item-level algorithm `rwItems` (only whitespace
+      and comments are dropped; strings, hints and every other byte are copied untouched, in order), it never reads
+      out of bounds, and under `SafeAdjacent` the JavaScript token sequence is unchanged.
+  (2) the name allocator (model `GV.Names`, compiler/utils.go:284-327) with minification on: the i-th short names
+      are pairwise distinct, stay inside their letter class (lower case = local, upper case = package level), and for
+      every history of nested function contexts the names visible at any time are pairwise distinct and never a
+      reserved word.
+-/
 namespace GV.Props.C16
+open GV.Minify GV.JsTokens GV.Proofs.Minify GV.Proofs.Tokens
+
+/-! ## removeWhitespace -/
+
+/-- With minification off the code is returned as is. -/
+theorem rw_identity (b : List Nat) : removeWhitespace b false = some b := rfl
+
+/-- [EQ] On the bytes of any legal item sequence the scanner IS the item-level algorithm. -/
+theorem rw_items (its : List Item) (hok : itemsOK its = true) :
+    removeWhitespace (flatten its) true = (rwItems 0 its).map flatten := by
+  simp only [itemsOK, Bool.and_eq_true] at hok
+  exact rwLoop_items its 0 _ false hok.1 hok.2 (Nat.le_refl _)
+
+/-- `rw_total`: on well-formed generated code the scanner never indexes out of bounds (no panic). -/
+theorem rw_total {s : List Nat} (h : GenWF s) : ∃ o, removeWhitespace s true = some o := by
+  obtain ⟨its, ⟨hok, hfl⟩, ht⟩ := h
+  have hok' := hok
+  simp only [itemsOK, Bool.and_eq_true] at hok'
+  obtain ⟨o, ho⟩ := rwItems_total its 0 0 hok'.1 ht id
+  exact ⟨flatten o, by rw [← hfl, rw_items its hok, ho]; rfl⟩
+
+/-- Only whitespace and comments are dropped: every other byte, every string literal (contents untouched) and every
+    hint survives, in the same order — for EVERY well-formed input, without any adjacency assumption. -/
+theorem rw_significant {s : List Nat} {its : List Item} (hp : Parse s its) (ht : tailOK 0 its = true) :
+    ∃ o its', removeWhitespace s true = some o ∧ flatten its' = o ∧ its'.all Item.ok = true ∧
+      significant its' = significant its := by
+  obtain ⟨hok, hfl⟩ := hp
+  have hok' := hok
+  simp only [itemsOK, Bool.and_eq_true] at hok'
+  obtain ⟨o, ho⟩ := rwItems_total its 0 0 hok'.1 ht id
+  exact ⟨flatten o, o, by rw [← hfl, rw_items its hok, ho]; rfl, rfl, rwItems_ok its 0 o ho hok'.1,
+    rwItems_significant its 0 o ho⟩
+
+/-- `rw_hints`: the hint sequence is preserved, and each hint keeps its place among the significant items
+    (so it still immediately precedes the same token). -/
+theorem rw_hints {s : List Nat} {its : List Item} (hp : Parse s its) (ht : tailOK 0 its = true) :
+    ∃ o its', removeWhitespace s true = some o ∧ flatten its' = o ∧ its'.all Item.ok = true ∧
+      hintsOf its' = hintsOf its ∧ significant its' = significant its := by
+  obtain ⟨o, its', h1, h2, h3, h4⟩ := rw_significant hp ht
+  refine ⟨o, its', h1, h2, h3, ?_, h4⟩
+  rw [← hints_significant its', h4, hints_significant]
+
+/-- `rw_tokens` [EQ]: for well-formed code whose adjacent tokens are safe, the output parses again and has the
+    same token sequence (and the same significant items). -/
+theorem rw_tokens {s : List Nat} {its : List Item} (hp : Parse s its) (ht : tailOK 0 its = true)
+    (hs : safeAdjacent its = true) :
+    ∃ o its', removeWhitespace s true = some o ∧ Parse o its' ∧ tokensOf its' = tokensOf its ∧
+      significant its' = significant its := by
+  obtain ⟨hok, hfl⟩ := hp
+  have hok' := hok
+  simp only [itemsOK, Bool.and_eq_true] at hok'
+  obtain ⟨o, ho⟩ := rwItems_total its 0 0 hok'.1 ht id
+  obtain ⟨h1, h2⟩ := (sim its).1 0 .start false o hs hok'.2 ho (by simp)
+  refine ⟨flatten o, o, by rw [← hfl, rw_items its hok, ho]; rfl, ⟨?_, rfl⟩, h1, rwItems_significant its 0 o ho⟩
+  simp [itemsOK, rwItems_ok its 0 o ho hok'.1, noSlashStar, h2]
+
+/-- the same, stated with the two predicates of the design -/
+theorem rw_tokens_pred {s : List Nat} (hw : GenWF s) (hs : SafeAdjacent s) :
+    ∃ its o its', Parse s its ∧ removeWhitespace s true = some o ∧ Parse o its' ∧ tokensOf its' = tokensOf its := by
+  obtain ⟨its, hp, ht⟩ := hw
+  obtain ⟨o, its', h1, h2, h3, _⟩ := rw_tokens hp ht (hs its hp)
+  exact ⟨its, o, its', hp, h1, h2, h3⟩
+
+/-- the hypotheses are satisfiable by non-trivial code: `\tx = a - -b; /* c */ return "s\"/*";\n` with a hint in front -/
+def sampleItems : List Item :=
+  [.hint [8, 0, 2, 1, 34], .ws 9, .ch 120, .ws 32, .ch 61, .ws 32, .ch 97, .ws 32, .ch 45, .ws 32, .ch 45, .ch 98, .ch 59, .ws 32,
+   .comment [32, 99, 32], .ws 32, .ch 114, .ch 101, .ch 116, .ws 32, .str [115, 92, 34, 47, 42], .ch 59, .ws 10]
+
+example : itemsOK sampleItems = true ∧ tailOK 0 sampleItems = true ∧ safeAdjacent sampleItems = true := by decide
+
+/-- `SafeAdjacent` is a real restriction: in `a/**/b` the comment is the only separator and the identifiers merge. -/
+theorem unsafe_example : safeAdjacent [.ch 97, .comment [], .ch 98] = false ∧
+    tokensOf [.ch 97, .ch 98] ≠ tokensOf [.ch 97, .comment [], .ch 98] := by decide
+
+/-- Not proved here (stated only): the parse of a byte string is unique, i.e. `tokensOf` is a function of the bytes.
+    The driver does not rely on it: it validates the parse it computes (`itemsOK ∧ flatten = input`). -/
+def parse_unique : Prop := ∀ (s : List Nat) (a b : List Item), Parse s a → Parse s b → a = b
+
+/-! ## Identifier shortening -/
+open GV.Names GV.Proofs.Names
+
+/-- the short-name generator is bijective base 26: reading the name back gives the index (+1) -/
+theorem shortChars_decode (off j : Nat) : decodeShort off (shortChars off j []) = j + 1 :=
+  decode_shortChars off j
+
+/-- `shortnames_inj`: the i-th candidate names are pairwise distinct (also past 26 and 702 names). -/
+theorem shortnames_inj (pkgLevel : Bool) (i j : Nat) (h : shortName pkgLevel i = shortName pkgLevel j) : i = j := by
+  have hi := decode_shortChars (if pkgLevel then 65 else 97) i
+  have hj := decode_shortChars (if pkgLevel then 65 else 97) j
+  unfold shortName at h
+  rw [h] at hi
+  omega
+
+/-- local names consist of lower-case letters only, package-level names of upper-case letters only -/
+theorem shortName_class (pkgLevel : Bool) (i : Nat) :
+    ∀ c ∈ shortName pkgLevel i, (if pkgLevel then 65 else 97) ≤ c ∧ c < (if pkgLevel then 65 else 97) + 26 := by
+  intro c hc
+  have := shortChars_class (if pkgLevel then 65 else 97) i [] c hc
+  simpa using this
+
+theorem shortName_ne_nil (pkgLevel : Bool) (i : Nat) : shortName pkgLevel i ≠ [] := by
+  intro h
+  have := decode_shortChars (if pkgLevel then 65 else 97) i
+  unfold shortName at h
+  rw [h] at this
+  simp [decodeShort] at this
+
+/-- package-level (upper-case) and local (lower-case) short names never clash -/
+theorem pkg_local_disjoint (i j : Nat) : shortName true i ≠ shortName false j := by
+  intro h
+  cases hl : shortName true i with
+  | nil => exact shortName_ne_nil true i hl
+  | cons c r =>
+    have h1 := shortName_class true i c (by rw [hl]; simp)
+    have h2 := shortName_class false j c (by rw [← h, hl]; simp)
+    simp at h1 h2
+    omega
+
+/-- `short_not_reserved`, static part: every reserved word starts with a lower-case letter, so no package-level short
+    name is reserved (the lower-case ones that are — `do`, `if`, `in`, `for`, `int`, … — are handled dynamically, by the
+    seeding of the root context: see `names_distinct`). -/
+theorem short_not_reserved (i : Nat) : shortName true i ∉ reserved := by
+  intro h
+  have hall : reserved.all (fun w => match w with | c :: _ => decide (97 ≤ c) | [] => false) = true := by decide
+  have hw := List.all_eq_true.mp hall _ h
+  cases hs : shortName true i with
+  | nil => exact shortName_ne_nil true i hs
+  | cons c r =>
+    rw [hs] at hw
+    have := shortName_class true i c (by rw [hs]; simp)
+    simp at this hw
+    omega
+
+/-- the seeding is needed: the 119th local candidate is the reserved word `do` -/
+theorem do_is_a_candidate : shortName false 118 = [100, 111] ∧ [100, 111] ∈ reserved := by
+  constructor
+  · unfold shortName
+    rw [shortChars.eq_def]; simp
+    rw [shortChars.eq_def]; simp
+  · decide
+
+/-- `names_distinct` [INV]: for EVERY history of nested function contexts (push / pop / allocate in the innermost
+    context — any scope tree, any number of names, local or package level), with minification on, at every moment the
+    JavaScript names in scope (all package-level names and the locals of all enclosing functions) are pairwise
+    distinct, none is a reserved word, package-level names are upper-case and locals lower-case (so they never clash). -/
+theorem names_distinct (ops : List Op) (st : NState) (h : runOps true initState ops = some st) :
+    (visible st).Nodup ∧ (∀ n ∈ visible st, n ∉ reserved) ∧
+    (∀ n ∈ st.pkgNames, isUpper n) ∧ (∀ n ∈ chainLocals st.chain, isLower n) := by
+  have hi := inv_run ops initState st inv_init h
+  exact ⟨hi.nodup, hi.notres, hi.pkgUpper, hi.locLower⟩
+
+/-- a name handed out is new: it is not in scope before the allocation (so earlier names stay what they were) -/
+theorem names_fresh (ops : List Op) (st : NState) (name : Name) (pk : Bool) (c : List Scope) (nm : Name)
+    (h : runOps true initState ops = some st) (ha : newVariable true name pk st.chain = some (c, nm)) :
+    nm ∉ visible st :=
+  (inv_req (inv_run ops initState st inv_init h) ha).2
+
+/-- the hypothesis is satisfiable: a history exists (here: a nested function, one local, one package-level name) -/
+example : (runOps true initState [.push [102], .req [120] false, .req [121] true, .pop]).isSome = true := by decide
+
+/-- Not claimed: the corresponding statement with minification off (`name`, `name$1`, …) needs a side condition on the
+    requested names (no Go identifier encodes to another one followed by `$<digits>`); it belongs to C01. -/
+def names_distinct_plain : Prop :=
+  ∀ (ops : List Op) (st : NState), runOps false initState ops = some st → (visible st).Nodup
+
+/-- Not proved: the candidate search always finds a free name within `size + 1` candidates (pigeonhole over the
+    injective `shortName`), i.e. `runOps` never fails for lack of fuel. -/
+def firstFree_total : Prop :=
+  ∀ (pk : Bool) (m : VarMap), ∃ nm, firstFree pk m (m.size + 1) 0 = some nm
+
 end GV.Props.C16
